@@ -62,7 +62,10 @@ def run():
         lim = 4000 if chk.thorough else 600
         a1 = hc.micro_campaign(chk, sc, build, hists[:lim], 12, 36, "fast")
         a2 = hc.micro_campaign(chk, sc, build, hists2[:lim], 6, 96, "slow")
-        chk.cov["micro_behaviours"] = {"fast_path": a1, "slow_path": a2}
+        chains = hc.chain_scripts()
+        chk.rng.shuffle(chains)
+        a3 = hc.micro_campaign(chk, sc, build, chains[:len(chains) if chk.thorough else 60], 8, 64, "chain", batch=90)
+        chk.cov["micro_behaviours"] = {"fast_path": a1, "slow_path": a2, "ephemeron_chains": a3}
         # ---- TV of whole programs: every collection of every workload
         iters = 400000 if chk.thorough else 60000
         jobs = []
@@ -100,7 +103,7 @@ def run():
             chk.cov["traces_validated_against_impl"] += len(index)
             chk.cov["collections_validated"] = ngc
         chk.cov["evaluations"] = chk.cov["traces_validated_against_impl"]
-        chk.cov["distinct_nontrivial"] = chk.cov["micro_behaviours"]["fast_path"] + chk.cov["micro_behaviours"]["slow_path"]
+        chk.cov["distinct_nontrivial"] = sum(chk.cov["micro_behaviours"].values())
         chk.cov["rule"] = ("behaviours = distinct action sequences (alloc/set/root/collect/grow) produced by TLC -simulate from Heap.tla, "
                            "replayed on the real allocator; non-trivial = contains at least one collection; macro = every collection of each workload")
         chk.cov["exhaustive"] = True
